@@ -5,12 +5,13 @@ package core
 // with sortedKeys). Bound: every table over the primary keys {a,b,c,d} where each item is absent, has index key
 // "x", has index key "y", or has no index key (256 tables); a hash-only global secondary index on attribute g;
 // Scan and Query (g = :v) through the index, both directions, Limit in {0,1,2,3}, pages followed through
-// LastEvaluatedKey. Checked: the unpaginated result is exactly the indexed items (of the queried partition) ordered
+// LastEvaluatedKey (thorough tier: five primary keys - 1024 tables - and Limit up to 4). Checked: the unpaginated result is exactly the indexed items (of the queried partition) ordered
 // by (index key, primary key) in the requested direction; every page has at most Limit items; the pages concatenate to
 // the unpaginated result; paging ends within len+2 pages.
 
 import (
 	"fmt"
+	"os"
 	"sort"
 	"strings"
 	"testing"
@@ -21,9 +22,19 @@ import (
 
 func TestVerifBoundedIndexPath(t *testing.T) {
 	ids := []string{"a", "b", "c", "d"}
+	maxLimit := int64(3)
+	if os.Getenv("VERIF_TIER") == "thorough" {
+		// thorough tier: five primary keys (1024 tables), Limit up to 4
+		ids = append(ids, "e")
+		maxLimit = 4
+	}
+	tables := 1
+	for range ids {
+		tables *= 4
+	}
 	hash := "HASH"
 	idx := "by-g"
-	for code := 0; code < 256; code++ {
+	for code := 0; code < tables; code++ {
 		table := NewTable("t")
 		table.AttributesDef = map[string]string{"id": "S", "g": "S"}
 		table.KeySchema = keySchema{HashKey: "id"}
@@ -96,7 +107,7 @@ func TestVerifBoundedIndexPath(t *testing.T) {
 				if got := strings.Join(idsOf(all), ","); got != strings.Join(exp, ",") {
 					t.Fatalf("%s: unpaginated result [%s], want [%s]", name, got, strings.Join(exp, ","))
 				}
-				for limit := int64(1); limit <= 3; limit++ {
+				for limit := int64(1); limit <= maxLimit; limit++ {
 					var got []string
 					var start map[string]*types.Item
 					pages := 0
